@@ -310,7 +310,35 @@ func runC10(r *Run) {
 	for _, cl := range iq.AnonFuncs {
 		allInstrs(cl, func(ins ssa.Instruction) {
 			if c, ok := ins.(*ssa.Call); ok && calleeName(c) == "(*storage.State).GetVersioned" {
-				if bo, ok := c.Call.Args[1].(*ssa.BinOp); ok && bo.Op == token.SUB {
+				// lastHeight - 1, computed at the call or hoisted into a local of the enclosing function (a captured variable)
+				arg := resolveLoad(c.Call.Args[1])
+				if fv, isFV := arg.(*ssa.FreeVar); isFV {
+					if b := freeVarBinding(fv); b != nil {
+						arg = resolveLoad(b)
+						if al, isAl := b.(*ssa.Alloc); isAl {
+							// the captured local: the single value stored into it
+							if refs := al.Referrers(); refs != nil {
+								for _, rr := range *refs {
+									if st, isSt := rr.(*ssa.Store); isSt && st.Addr == ssa.Value(al) {
+										arg = st.Val
+									}
+								}
+							}
+						}
+					}
+				}
+				if ld, isLd := arg.(*ssa.UnOp); isLd && ld.Op == token.MUL {
+					if fv, isFV := ld.X.(*ssa.FreeVar); isFV {
+						if al, isAl := freeVarBinding(fv).(*ssa.Alloc); isAl && al.Referrers() != nil {
+							for _, rr := range *al.Referrers() {
+								if st, isSt := rr.(*ssa.Store); isSt && st.Addr == ssa.Value(al) {
+									arg = st.Val
+								}
+							}
+						}
+					}
+				}
+				if bo, ok := arg.(*ssa.BinOp); ok && bo.Op == token.SUB {
 					if k, isC := intConst(bo.Y); isC && k == 1 && strings.HasSuffix(pathOf(bo.X).FieldString(), "lastHeight") {
 						okQ = true
 					}
